@@ -63,22 +63,31 @@ def run(ck):
             extra += ["-O", "out"]
         dry = rng.random() < 0.35
         ng = rng.choice([0, 1, 1, 2, 3])
-        gens = []
+        gens, gfail = [], []
         for g in range(ng):
             reply = dc.enc_reply([("gen%d_%d.txt" % (g, k), "content %d" % k) for k in range(rng.choice([0, 1, 2]))])
-            gens.append(("gen-reply-%d" % g, rng.choice([None, "k=v"]), reply))
+            how = rng.choice(["reply", "reply", "reply", "exit1", "missing", "stderr"])
+            gens.append(("gen-%s-%d" % (how, g), rng.choice([None, "k=v"]), reply if how == "reply" else None))
+            gfail.append(how)
+        if kind in ("clean", "error", "warn") and rng.random() < 0.25:
+            # the same source listed twice: a DuplicateFile warning from file resolution, before anything is parsed
+            files.append(("S", files[0][1], files[0][2]))
+            dup = True
+        else:
+            dup = False
         lines.append(dc.run_line(dry, extra, gens, files))
         has_err = kind in ("error", "io")
-        metas.append({"kind": kind, "what": what, "has_err": has_err, "dry": dry, "gens": gens, "outdir": outdir, "files": files, "allow": allow})
+        metas.append({"kind": kind, "what": what + ("+duplicate-file" if dup else ""), "has_err": has_err, "dry": dry, "gens": gens, "gfail": gfail, "outdir": outdir, "files": files, "allow": allow, "dup": dup})
     o = dc.run_all(lines)
     ck.stream("driver", description="the real slicec binary in a scratch directory: programs that are clean / warnings only (deprecated use, broken link, misplaced tag) / one error of each phase "
               "(missing file, non-.slice source, directory as source, preprocessor, syntax, file without module, unknown attribute, unresolved type, cycle, redefinition, rule violation) in any one of 1-3 files "
-              "(sources and references) x 0..3 reply-writing generators x --dry-run x -A lists x output directory. Compared with the driver model: which generators were started, which files appeared, the exit status, "
+              "(sources and references) x 0..3 generators (reply-writing, or failing: exit 1, missing executable, stderr output) x the same source listed twice (DuplicateFile warning) x --dry-run x -A lists x output directory. Compared with the driver model: which generators were started, which files appeared, the exit status, "
               "the number of error diagnostics on stderr (JSON).")
     mlines = []
     for md in metas:
-        mlines.append("main %s %d G %s FS" % ("E" if md["has_err"] else ("L" if md["kind"] == "warn" else "-"), 1 if md["dry"] else 0,
-                                              " ".join("run:1:0:0:%s" % r.hex() for _, _, r in md["gens"])))
+        beh = {"reply": lambda r: "run:1:0:0:%s" % r.hex(), "exit1": lambda r: "run:1:0:1:-", "missing": lambda r: "missing", "stderr": lambda r: "run:1:1:0:0000"}
+        mlines.append("main %s %d G %s FS" % ("E" if md["has_err"] else ("L" if md["kind"] == "warn" or md["dup"] else "-"), 1 if md["dry"] else 0,
+                                              " ".join(beh[h](r) for (_, _, r), h in zip(md["gens"], md["gfail"]))))
     m = core.run_model("main", mlines)
     for md, line, oo, mo in zip(metas, lines, o, m):
         case = "%s%s generators=%d %s\n%s" % ("--dry-run " if md["dry"] else "", " ".join(md["allow"]), len(md["gens"]), "-O out" if md["outdir"] else "",
@@ -94,7 +103,8 @@ def run(ck):
         runs = mo.split(" ")[0] == "runs=1"
         want_exit = mo.split(" ")[1][5:]
         started = [g for g, (inv, _) in r["gens"].items() if inv > 0]
-        if runs and sorted(started) != sorted(g for g, _, _ in md["gens"]) or any(r["gens"][g][0] > 1 for g in started):
+        startable = [g for (g, _, _), h in zip(md["gens"], md["gfail"]) if h != "missing"]
+        if runs and sorted(started) != sorted(startable) or any(r["gens"][g][0] > 1 for g in started):
             ck.violation("driver", "generator-not-started", case, "every generator started once", str(r["gens"])[:200], signature={"what": md["what"]})
         if not runs and started:
             ck.violation("driver", "generator-started-dry-run" if md["dry"] and not md["has_err"] else "generator-started-despite-errors", case, "no generator is started", "started: %s" % started,
@@ -105,6 +115,8 @@ def run(ck):
         gen_files = {}
         if runs:
             for g, _, reply in md["gens"]:
+                if reply is None:
+                    continue
                 k = 0
                 while ("gen%s_%d.txt" % (g.split("-")[-1], k)).encode() in reply:
                     gen_files[("out/" if md["outdir"] else "") + "gen%s_%d.txt" % (g.split("-")[-1], k)] = ("content %d" % k).encode()
